@@ -27,7 +27,7 @@ RULE = (
 )
 ASSUMPTIONS = [
     "equality modulo container type (list/tuple/ndarray, numpy/python scalar); a key whose value is an empty dict may come back absent",
-    "mixed-type lists and lists of None are outside the stated family and are not generated; keys contain no dots",
+    "mixed-type lists and lists of None are outside the stated family and are not generated; keys are non-empty text (may contain '.', '/', '%', spaces, non-ASCII)",
     "flows compared on probe points at 1e-6 (float32) / 1e-12 (float64) relative tolerance",
 ]
 REQUIRED_COUNTERS = ["samples_roundtrips", "history_roundtrips", "transform_roundtrips", "flow_roundtrips", "config_roundtrips", "dict_roundtrips"]
@@ -167,7 +167,7 @@ def samples_case(case, counters, viol, nontrivial):
                         if flag:
                             kw[name] = xp.asarray(arr)
                     if mask[3]:
-                        kw["parameters"] = ["mass", "spin_1", "phase"] if not flat else ["mass", "θ_jn", "Δφ"]  # names are text, not ASCII
+                        kw["parameters"] = ["m2/m1", "spin_1.z", "100%"] if not flat else ["mass", "θ_jn", "Δφ/2π"]  # names are text: not ASCII, ratios, components
                     if case["cls"] == "SMCSamples":
                         kw.update(beta=0.25, log_evidence=-1.5 if mask[0] else None, log_evidence_error=0.1 if mask[0] else None)
                     s = C(**kw)
@@ -606,7 +606,8 @@ def gen_value(g, depth):
 
 
 def gen_dict(g, depth=0):
-    return {f"k{depth}_{i}": gen_value(g, depth) for i in range(int(g.integers(1, 5)))}
+    suffix = ["", "", "", ".x", "/y", "%2E", " z", "é"]
+    return {f"k{depth}_{i}{suffix[int(g.integers(len(suffix)))]}": gen_value(g, depth) for i in range(int(g.integers(1, 5)))}
 
 
 def dicts_case(case, counters, viol, nontrivial):
